@@ -56,6 +56,44 @@ def leaf_classes():
             self.handles = frozenset(spec.get("keys", ()))
             self.nrows = max(1, int(spec.get("rows", 1)))
             self.mouse_rv = bool(spec.get("mouse", False))
+            if spec.get("cur") and self.sel:
+                # a leaf with a cursor (like an Edit): containers then take their cursor / preferred-column paths when
+                # the focus moves onto it.  "mc": False refuses the position it is offered.
+                self.cx = int(spec.get("cx", 0))
+                self.accepts = bool(spec.get("mc", True))
+                self.get_cursor_coords = self._get_cursor_coords
+                self.get_pref_col = self._get_pref_col
+                self.move_cursor_to_coords = self._move_cursor_to_coords
+
+        def _get_cursor_coords(self, size):
+            cols, rows = self._dims(size)
+            if cols <= 0 or rows <= 0:
+                return None
+            return (min(self.cx, cols - 1), 0)
+
+        def _get_pref_col(self, size):
+            return self.cx
+
+        def _move_cursor_to_coords(self, size, col, row):
+            self.run.leaf_event("cursor", self, tuple(size), repr(col), int(row))
+            if not self.accepts:
+                return False
+            cols, _rows = self._dims(size)
+            if col == "left":
+                self.cx = 0
+            elif col == "right":
+                self.cx = max(0, cols - 1)
+            else:
+                self.cx = max(0, min(int(col), max(0, cols - 1)))
+            return True
+
+        def _with_cursor(self, canv, size, focus):
+            if focus and hasattr(self, "cx"):
+                cc = self._get_cursor_coords(size)
+                if cc is not None:
+                    canv = urwid.CompositeCanvas(canv)
+                    canv.cursor = cc
+            return canv
 
         def _repr_words(self):
             return [f"leaf{self.lid}", "sel" if self.sel else "unsel"]
@@ -74,7 +112,7 @@ def leaf_classes():
         def render(self, size, focus=False):
             cols, rows = self._dims(size)
             self.run.leaf_event("render", self, tuple(size), bool(focus))
-            return urwid.SolidCanvas("abcdefghijklmnopqrstuvwxyz"[self.lid % 26], cols, rows)
+            return self._with_cursor(urwid.SolidCanvas("abcdefghijklmnopqrstuvwxyz"[self.lid % 26], cols, rows), size, focus)
 
         def keypress(self, size, key):
             handled = key in self.handles
@@ -93,7 +131,7 @@ def leaf_classes():
         def render(self, size, focus=False):
             cols, rows = self._dims(size)
             self.run.leaf_event("render", self, tuple(size), bool(focus))
-            return urwid.SolidCanvas("ABCDEFGHIJKLMNOPQRSTUVWXYZ"[self.lid % 26], cols, rows)
+            return self._with_cursor(urwid.SolidCanvas("ABCDEFGHIJKLMNOPQRSTUVWXYZ"[self.lid % 26], cols, rows), size, focus)
 
     _LEAF_CLASSES = (FlowLeaf, BoxLeaf)
     return _LEAF_CLASSES
@@ -1067,7 +1105,10 @@ class ContainersEngine(Engine):
     def gen_leaf(self, rng: random.Random, ctr: list[int], dull: bool = False) -> dict:
         ctr[0] += 1
         keys = [k for k in KEYS if rng.random() < (0.10 if k in ARROWS else 0.18)]
-        return {"k": "leaf", "id": ctr[0], "sel": not dull and rng.random() < 0.65, "keys": keys, "rows": rng.choice([1, 1, 2, 3]), "mouse": rng.random() < 0.3}
+        leaf = {"k": "leaf", "id": ctr[0], "sel": not dull and rng.random() < 0.65, "keys": keys, "rows": rng.choice([1, 1, 2, 3]), "mouse": rng.random() < 0.3}
+        if leaf["sel"] and rng.random() < 0.3:
+            leaf.update(cur=True, cx=rng.choice([0, 0, 2, 5]), mc=rng.random() < 0.8)
+        return leaf
 
     def gen_node(self, rng: random.Random, slot: str, depth: int, budget: list[int], ctr: list[int], must_be_container: bool = False, dull: bool = False) -> dict:  # noqa: C901, PLR0911, PLR0912
         """`dull` subtrees have only unselectable leaves (containers whose selectable() flips when the application edits them)."""
